@@ -6,6 +6,16 @@
 //! maintenance lock), so one scheduling decision = one step of the Lean model
 //! `Fv.Cache.Conc` (`Label` names = step names printed here).
 //!
+//! Scheduling: exactly one worker runs at a time; the worker that reaches a yield point logs the step it
+//! just finished (derived from (previous point, point reached | return)), lets the harness observe
+//! `current_cost` and the map (`cur=`/`m=` tokens, appended to the last line of the decision), takes the next
+//! scheduling decision itself and hands the baton on. A thread at "maint:before_lock" is not runnable while
+//! the (harness-tracked) maintenance lock of its shard is held; a thread at "compute:retry" is not offered
+//! again until some other thread has changed the state (a retry in an unchanged state fails identically).
+//! Cases are independent and run concurrently (one process-global hook dispatching on a thread-local);
+//! output is deterministic for a given seed. Policy `fifoadm` is a harness-side cost-bounded FIFO that
+//! evicts at admission, to exercise the victim / evSub / evNote steps.
+//!
 //! Transcript: `#case <id> threads=<n> shards=<S> cap=<c|inf> policy=<p> coop=<0|1> nkeys=<K> strategy=<..>`,
 //! `P <tid> <ops ; ...>`, `S <decisions>`, step lines `<tid> <step> [args] => <result> [ret=..] [cur=<u64> m=<k:v,..|->]`,
 //! `X <status>`, `!monitor` lines, `#end`.
@@ -57,9 +67,35 @@ impl CachePolicy<u64, u64> for RecPolicy {
   fn clear(&self) { self.inner.clear(); self.log.lock().unwrap().push(format!("cl:{}", self.shard)); }
 }
 
+/// Harness-side policy (policies are oracles of the model): cost-bounded FIFO that evicts AT ADMISSION
+/// (`AdmitAndEvict`), so that the victim / evSub / evNote steps of `perform_shard_maintenance` are exercised
+/// (of the repository's policies only TinyLFU ever returns `AdmitAndEvict`, and rarely on tiny programs).
+struct FifoAdm { cap: u64, st: Mutex<std::collections::VecDeque<(u64, u64)>> }
+impl CachePolicy<u64, u64> for FifoAdm {
+  fn on_access(&self, _k: &u64, _c: u64) {}
+  fn uses_access_events(&self) -> bool { false }
+  fn on_admit(&self, k: &u64, c: u64) -> AdmissionDecision<u64> {
+    let mut q = self.st.lock().unwrap();
+    q.retain(|e| e.0 != *k);
+    q.push_back((*k, c));
+    let mut victims = vec![];
+    while q.iter().map(|e| e.1).sum::<u64>() > self.cap && q.len() > 1 { if let Some((v, _)) = q.pop_front() { victims.push(v); } }
+    if victims.is_empty() { AdmissionDecision::Admit } else { AdmissionDecision::AdmitAndEvict(victims) }
+  }
+  fn on_remove(&self, k: &u64) { self.st.lock().unwrap().retain(|e| e.0 != *k); }
+  fn evict(&self, n: u64) -> (Vec<u64>, u64) {
+    let mut q = self.st.lock().unwrap();
+    let (mut vs, mut freed) = (vec![], 0u64);
+    while freed < n { match q.pop_front() { Some((k, c)) => { vs.push(k); freed += c; } None => break } }
+    (vs, freed)
+  }
+  fn clear(&self) { self.st.lock().unwrap().clear(); }
+}
+
 fn mk_policy(name: &str, cap: u64) -> Box<dyn CachePolicy<u64, u64>> {
   use fibre_cache::policy::*;
   match name {
+    "fifoadm" => Box::new(FifoAdm { cap, st: Mutex::new(Default::default()) }),
     "lru" => Box::new(lru::LruPolicy::<u64>::new()),
     "fifo" => Box::new(fifo::Fifo::<u64>::new()),
     "sieve" => Box::new(sieve::SievePolicy::<u64>::new()),
@@ -108,7 +144,6 @@ type Obs = (u64, BTreeMap<u64, u64>);
 struct Line { text: String, obs: Option<Obs>, quiescent: bool }
 
 struct Inner {
-  tids: HashMap<ThreadId, usize>,
   th: Vec<Th>,
   baton: Option<usize>,
   log: Vec<Line>,
@@ -123,6 +158,8 @@ struct Inner {
   last_obs: BTreeMap<u64, u64>,
   shards: usize,
   panicked: Option<usize>,
+  /// workers whose program is over (their OS thread is free again)
+  exited: usize,
   // ---- scheduling state (the thread that arrives last takes the next decision itself)
   strat: Strategy,
   rng: Rng,
@@ -293,13 +330,10 @@ impl Inner {
 struct Sched { m: Mutex<Inner>, cvs: Vec<Condvar>, main_cv: Condvar }
 
 impl Sched {
-  fn me(&self, g: &Inner) -> Option<usize> { g.tids.get(&std::thread::current().id()).copied() }
-
   /// Called by a thread arriving at a yield point: log the step it just finished, hand the baton back,
   /// wait until scheduled again. `finished`: the thread has nothing more to do (no waiting).
-  fn arrive(&self, label: &'static str, ret: Option<Ret>, finished: bool) {
+  fn arrive(&self, me: usize, label: &'static str, ret: Option<Ret>, finished: bool) {
     let mut g = self.m.lock().unwrap();
-    let me = match self.me(&g) { Some(t) => t, None => return };
     if !g.active {
       if finished { g.th[me].status = Status::Finished; }
       return;
@@ -347,27 +381,55 @@ impl Sched {
   }
 }
 
-struct Hook { s: Arc<Sched> }
+thread_local! {
+  /// the case (scheduler) and thread index the current OS thread works for; cases run concurrently, the
+  /// one process-global hook dispatches on this
+  static CUR: std::cell::RefCell<Option<(Arc<Sched>, usize)>> = const { std::cell::RefCell::new(None) };
+}
+
+struct Hook;
 impl SchedHook for Hook {
-  fn point(&self, label: &'static str) { self.s.arrive(label, None, false); }
+  fn point(&self, label: &'static str) {
+    let c = CUR.with(|c| c.borrow().clone());
+    if let Some((s, t)) = c { s.arrive(t, label, None, false); }
+  }
   fn on_spawn(&self) {}
   fn before_park(&self) {}
   fn after_park(&self) {}
   fn on_unpark(&self, _target: ThreadId) {}
 }
 
-/// Marks its thread finished if the thread dies by a panic (so the scheduler does not wait for it).
+/// Dropped when a worker's program is over: counts the exit; if the thread dies by a panic, marks it
+/// finished (so the scheduler does not wait for it).
 struct Bail { s: Arc<Sched>, t: usize }
 impl Drop for Bail {
   fn drop(&mut self) {
+    CUR.with(|c| *c.borrow_mut() = None);
+    let mut g = match self.s.m.lock() { Ok(g) => g, Err(p) => p.into_inner() };
+    g.exited += 1;
     if std::thread::panicking() {
-      let mut g = match self.s.m.lock() { Ok(g) => g, Err(p) => p.into_inner() };
       g.th[self.t].status = Status::Finished;
       g.panicked = Some(self.t);
       if g.baton == Some(self.t) { g.baton = None; }
       if g.all_settled() { g.schedule(); }
       self.s.wake(&g, Some(self.t));
     }
+    self.s.main_cv.notify_all();
+  }
+}
+
+// Worker OS threads are reused across cases (thread creation dominates the cost of a tiny case).
+type Job = Box<dyn FnOnce() + Send + 'static>;
+static POOL: Mutex<Vec<std::sync::mpsc::Sender<Job>>> = Mutex::new(Vec::new());
+fn pool_run(mut job: Job) -> std::sync::mpsc::Sender<Job> {
+  loop {
+    let pooled = POOL.lock().unwrap().pop();
+    let tx = pooled.unwrap_or_else(|| {
+      let (tx, rx) = std::sync::mpsc::channel::<Job>();
+      std::thread::spawn(move || { while let Ok(j) = rx.recv() { j(); } });
+      tx
+    });
+    match tx.send(job) { Ok(()) => return tx, Err(e) => job = e.0 } // a pooled thread that died: take another
   }
 }
 
@@ -395,6 +457,7 @@ impl Cfg {
 struct Outcome { transcript: String, choice_points: Vec<(usize, Vec<usize>)>, decisions: Vec<usize>, monitor_sigs: Vec<String> }
 
 const STEP_BUDGET: usize = 3000;
+const DFS_BATCH: usize = 8;
 
 fn observe(cache: &C, nkeys: u64) -> Obs {
   let cur = cache.metrics().current_cost;
@@ -429,10 +492,9 @@ fn run_case(id: &str, cfg: &Cfg, programs: &[Vec<String>], strat: Strategy, stra
   let n = programs.len();
   let sched = Arc::new(Sched {
     m: Mutex::new(Inner {
-      tids: HashMap::new(),
       th: (0..n).map(|_| Th { status: Status::Running, last: "", op: vec![], maint_sh: 0, stale: false }).collect(),
       baton: None, log: vec![], decisions: vec![], active: true, mlock: vec![None; s_n], plog: plog.clone(), plog_mark: 0,
-      last_obs: BTreeMap::new(), shards: s_n, panicked: None,
+      last_obs: BTreeMap::new(), shards: s_n, panicked: None, exited: 0,
       rng: match &strat { Strategy::Random(s) => Rng::new(*s), _ => Rng::new(0) },
       strat, choice_points: vec![], step_no: 0, log_mark: 0, picked: None, run_status: "ok".into(), done: false,
       cache: cache.clone(), nkeys: cfg.nkeys,
@@ -440,16 +502,14 @@ fn run_case(id: &str, cfg: &Cfg, programs: &[Vec<String>], strat: Strategy, stra
     cvs: (0..n).map(|_| Condvar::new()).collect(),
     main_cv: Condvar::new(),
   });
-  verif_sched::install(Arc::new(Hook { s: sched.clone() }));
-
-  let mut handles = vec![];
+  let mut pool_threads = vec![];
   for (t, prog) in programs.iter().enumerate() {
     let (cache, sched, prog) = (cache.clone(), sched.clone(), prog.clone());
-    handles.push(std::thread::spawn(move || {
-      { let mut g = sched.m.lock().unwrap(); g.tids.insert(std::thread::current().id(), t); }
+    pool_threads.push(pool_run(Box::new(move || {
+      CUR.with(|c| *c.borrow_mut() = Some((sched.clone(), t)));
       let _bail = Bail { s: sched.clone(), t };
       let mut slot: Option<Arc<u64>> = None;
-      sched.arrive("start", None, prog.is_empty());
+      sched.arrive(t, "start", None, prog.is_empty());
       for (i, op) in prog.iter().enumerate() {
         let w: Vec<&str> = op.split_whitespace().collect();
         if w.is_empty() { continue; }
@@ -473,10 +533,10 @@ fn run_case(id: &str, cfg: &Cfg, programs: &[Vec<String>], strat: Strategy, stra
         };
         let last_op = i + 1 == prog.len();
         if last_op { slot = None; }
-        sched.arrive("op", Some(ret), last_op);
+        sched.arrive(t, "op", Some(ret), last_op);
       }
       drop(slot);
-    }));
+    })));
   }
 
   // ---- the workers schedule themselves (the thread that arrives hands the baton on); wait for the end
@@ -491,8 +551,14 @@ fn run_case(id: &str, cfg: &Cfg, programs: &[Vec<String>], strat: Strategy, stra
     }
   }
   let finished_ok = sched.m.lock().unwrap().run_status == "ok";
-  if finished_ok { for h in handles { let _ = h.join(); } }
-  verif_sched::uninstall();
+  if finished_ok {
+    // every worker has left its program: its OS thread goes back to the pool (after a stuck / budget / panic
+    // run the threads may never come back: they are abandoned)
+    let mut g = sched.m.lock().unwrap();
+    while g.exited < n { g = sched.main_cv.wait(g).unwrap(); }
+    POOL.lock().unwrap().extend(pool_threads.drain(..));
+  }
+  drop(pool_threads);
   let final_obs = if finished_ok { Some(observe(&cache, cfg.nkeys)) } else { None };
 
   let g = sched.m.lock().unwrap();
@@ -704,7 +770,7 @@ fn gen_case(rng: &mut Rng) -> (Cfg, Vec<Vec<String>>) {
   let nkeys = rng.range(2, 4);
   let shards = *rng.pick(&[1usize, 2]);
   let cap = if rng.chance(1, 2) { None } else { Some(rng.range(3, 6)) };
-  let policy = if cap.is_none() { "lru" } else { *rng.pick(&["lru", "fifo", "slru", "tinylfu", "sieve", "clock", "arc"]) }.to_string();
+  let policy = if cap.is_none() { "lru" } else { *rng.pick(&["lru", "fifo", "slru", "tinylfu", "sieve", "clock", "arc", "fifoadm", "fifoadm", "fifoadm"]) }.to_string();
   let coop = rng.chance(1, 2);
   let maint_thread = if rng.chance(1, 4) { Some(n - 1) } else { None };
   let mut next_v = 0u64;
@@ -746,6 +812,7 @@ fn prog(s: &str) -> Vec<Vec<String>> {
 
 fn fixed_programs() -> Vec<(Cfg, Vec<Vec<String>>)> {
   let c = |shards: usize, cap: Option<u64>, coop: bool, nkeys: u64| Cfg { shards, cap, policy: "lru".into(), coop, nkeys };
+  let fa = |shards: usize, cap: u64, nkeys: u64| Cfg { shards, cap: Some(cap), policy: "fifoadm".into(), coop: false, nkeys };
   vec![
     (c(1, None, false, 2), prog("insert 1 10 5 || insert 1 11 3")),
     (c(1, None, false, 2), prog("insert 1 10 2 ; remove 1 || clear")),
@@ -754,6 +821,10 @@ fn fixed_programs() -> Vec<(Cfg, Vec<Vec<String>>)> {
     (c(1, Some(3), false, 3), prog("insert 0 10 2 ; insert 1 11 2 ; insert 2 12 2 ; maint || remove 0")),
     (c(1, Some(2), false, 2), prog("insert 1 10 1 ; insert 1 11 3 || maint")),
     (c(1, None, true, 2), prog("insert 0 10 1 || insert 1 11 2 || remove 0")),
+    (c(1, None, false, 2), prog("orinsert 1 10 1 || compute 1 || trycompute 1")),
+    (c(1, None, false, 2), prog("insert 1 10 1 ; hold 1 ; release || compute 1")),
+    (fa(1, 3, 2), prog("insert 0 10 2 ; insert 1 11 2 ; maint || remove 0")),
+    (fa(1, 3, 2), prog("insert 0 10 2 ; insert 1 11 2 ; maint || insert 0 12 1")),
   ]
 }
 
@@ -761,40 +832,59 @@ fn main() {
   match parse_args() {
     Mode::Gen { seed, cases, tier, extra } => {
       let dfs_budget: usize = extra.iter().find(|e| e.0 == "dfs").and_then(|e| e.1.parse().ok()).unwrap_or(if tier == "thorough" { 20000 } else { 1500 });
-      let mut out = String::new();
-      // 1. random programs x random schedules
-      for i in 0..cases {
+      let workers: usize = extra.iter().find(|e| e.0 == "workers").and_then(|e| e.1.parse().ok()).unwrap_or(12).max(1);
+      // `--only <i>`: run just DFS program i (diagnostics / witness extraction)
+      let only: Option<usize> = extra.iter().find(|e| e.0 == "only").and_then(|e| e.1.parse().ok());
+      verif_sched::install(Arc::new(Hook));
+      // 1. random programs x random schedules (independent cases, `workers` at a time)
+      let outs = par_map(cases, workers, |i| {
         let mut rng = Rng::new(seed.wrapping_mul(7919).wrapping_add(i as u64));
         let (cfg, ps) = gen_case(&mut rng);
         let s = rng.next();
-        out.push_str(&run_case(&format!("r{seed}.{i}"), &cfg, &ps, Strategy::Random(s), "random").transcript);
-        if out.len() > 1 << 20 { print!("{out}"); out.clear(); }
-      }
-      // 2. exhaustive schedules (stateless DFS) for fixed tiny programs
+        run_case(&format!("r{seed}.{i}"), &cfg, &ps, Strategy::Random(s), "random").transcript
+      });
+      for o in outs { print!("{o}"); }
+      // 2. exhaustive schedules (stateless DFS) for fixed tiny programs; the top DFS_BATCH prefixes of the
+      // stack are run concurrently, their alternatives are pushed in batch order (deterministic)
       let fixed = fixed_programs();
       for (pi, (cfg, ps)) in fixed.iter().enumerate() {
+        if only.map_or(false, |o| o != pi) { continue; }
+        let mut out = String::new();
+        let budget = dfs_budget / fixed.len();
         let mut stack: Vec<Vec<usize>> = vec![vec![]];
         let mut runs = 0usize;
-        let mut complete = true;
         let mut fired: BTreeMap<String, usize> = BTreeMap::new();
-        while let Some(prefix) = stack.pop() {
-          if runs >= dfs_budget / fixed.len() { complete = false; break; }
-          let o = run_case(&format!("d{pi}.{runs}"), cfg, ps, Strategy::Prefix(prefix.clone()), "dfs");
-          runs += 1;
-          let taken = &o.decisions;
-          for (pos, alts) in &o.choice_points {
-            if *pos < prefix.len() { continue; }
-            for a in alts { if Some(a) != taken.get(*pos) { let mut p: Vec<usize> = taken[..*pos].to_vec(); p.push(*a); stack.push(p); } }
+        while !stack.is_empty() && runs < budget {
+          let take = DFS_BATCH.min(stack.len()).min(budget - runs);
+          let batch: Vec<Vec<usize>> = (0..take).map(|_| stack.pop().unwrap()).collect();
+          let results: Vec<Mutex<Option<Outcome>>> = (0..take).map(|_| Mutex::new(None)).collect();
+          let _ = par_map(take, workers, |j| {
+            let o = run_case(&format!("d{pi}.{}", runs + j), cfg, ps, Strategy::Prefix(batch[j].clone()), "dfs");
+            *results[j].lock().unwrap() = Some(o);
+            String::new()
+          });
+          // children of batch[0] must end up on top: push in reverse batch order
+          let outcomes: Vec<Outcome> = results.into_iter().map(|m| m.into_inner().unwrap().unwrap()).collect();
+          for o in &outcomes {
+            for s in &o.monitor_sigs { *fired.entry(s.clone()).or_insert(0) += 1; }
+            out.push_str(&o.transcript);
           }
-          for s in &o.monitor_sigs { *fired.entry(s.clone()).or_insert(0) += 1; }
-          out.push_str(&o.transcript);
-          if out.len() > 1 << 20 { print!("{out}"); out.clear(); }
+          for (j, o) in outcomes.iter().enumerate().rev() {
+            let taken = &o.decisions;
+            for (pos, alts) in &o.choice_points {
+              if *pos < batch[j].len() { continue; }
+              for a in alts { if Some(a) != taken.get(*pos) { let mut p: Vec<usize> = taken[..*pos].to_vec(); p.push(*a); stack.push(p); } }
+            }
+          }
+          runs += take;
         }
+        let complete = stack.is_empty();
         out.push_str(&format!("# dfs program {pi}: {runs} schedules, complete={complete}{}\n", fired.iter().map(|(s, c)| format!(" {s}x{c}")).collect::<String>()));
+        print!("{out}");
       }
-      print!("{out}");
     }
     Mode::Run { file } => {
+      verif_sched::install(Arc::new(Hook));
       let text = std::fs::read_to_string(&file).expect("read");
       type Cur = (String, Vec<String>, BTreeMap<usize, Vec<String>>, Vec<usize>);
       let mut cur: Option<Cur> = None;
